@@ -3,9 +3,9 @@ import random
 import props_PN
 from propdefs import bfs
 
-N_DOCS = 24
+N_DOCS = 25
 GOOD_URLS = [1, 2, 3, 4, 16, 13, 17]
-ODD_URLS = [5, 6, 7, 8, 9, 10, 11, 12, 13, 14, 15]
+ODD_URLS = [5, 6, 7, 8, 9, 10, 11, 12, 13, 14, 15, 18, 19]
 
 GEN = dict(runs=dict(quick=[bfs("MC_Calls", "Calls_design")], thorough=[bfs("MC_Calls", "Calls_design")]))
 TRACE = dict(module="CallsTrace", cfg="CallsTrace")
@@ -121,7 +121,7 @@ def c01_groups(cases, ctx):
                 entry = "apply" if root != "document" else rnd.choice(["apply", "apply", "reader"])
                 out.append(dict(p=dict(doc=d, root=root, hist=[step(o, entry, url)])))
     # the documents with pagers and odd anchors, systematically through every page-URL class and both finders
-    for d in (1, 8, 9, 11, 15, 16, 18):
+    for d in (1, 8, 9, 11, 15, 16, 18, 23):
         for url in GOOD_URLS + ODD_URLS:
             for algo in ("prevnext", "pagenumber"):
                 for rep in range(3 if ctx["tier"] == "quick" else 25):
